@@ -175,4 +175,6 @@ theorem minimize_gen (r : Reg) (fuel : Nat) (h : (Reg.sortSegs (Reg.flatten r)).
     Reg.minimize r = Gen.minimizeMerge fuel (Reg.sortSegs (Reg.flatten r)) := by
   rw [minimizeMerge_eq fuel _ h]; rfl
 
+example : ((Reg.sortSegs (Reg.flatten (.many [.seg 9 7, .seg 0 3, .seg 2 5]))).length ≤ 2 + 1) := by decide
+
 end Gts.Bridge
